@@ -2,7 +2,10 @@
 (* Trace validation for Encoder (C04 JSON, C05 logfmt, C06 colored).
 
    Every line of the log is one record the harness pushed through the real library:
-     rec   the abstract record (see Encoder.tla) that was concretised and logged,
+     rec   the abstract record (see Encoder.tla) that was concretised and logged (key ids in
+           ReservedIds became the field names time / level / msg / logger / caller; with lc.set the
+           harness called SetLevelColors(sev, fg, bg) with concrete codes of the stated classes
+           right before the record and put the table back afterwards),
      obs   the projection of the bytes the library wrote, made by the harness's independent
            decoders (encoding/json; logfmt tokenizer + strconv.Unquote; SGR scanner + layout
            parser) - structure, value identities and fidelity booleans, never raw bytes,
@@ -34,8 +37,15 @@ NodeFeats(s) ==
             \cup (IF s[j].kc # "plain" THEN {"key:" \o s[j].kc} ELSE {})
             \cup (IF s[j].kind \in TextKinds /\ s[j].vc # "plain" THEN {"text:" \o s[j].vc} ELSE {})
             \cup (IF s[j].kind = "group" THEN NodeFeats(s[j].sub) ELSE {}) : j \in DOMAIN s }
+\* reserved field names as keys: of a group member (any depth) / of a top-level attribute; the
+\* level colour configuration the record was formatted under
+ResFeats(rec) ==
+    {"member-key:" \o x[1] \o ":" \o x[2] : x \in MemberReserved(rec.attrs, 0)}
+    \cup {"top-key:" \o ResName(rec.attrs[j].k) \o ":" \o rec.attrs[j].kind :
+             j \in {x \in DOMAIN rec.attrs : rec.attrs[x].k \in ReservedIds}}
+    \cup (IF Has(rec, "lc") /\ rec.lc.set THEN {"colours:" \o rec.lc.fg \o "+" \o rec.lc.bg} ELSE {})
 Feats(rec) ==
-    NodeFeats(rec.attrs)
+    NodeFeats(rec.attrs) \cup ResFeats(rec)
     \cup {"msg:" \o rec.msg[j] : j \in {x \in DOMAIN rec.msg : rec.msg[x] # "plain"}}
     \cup {"name:" \o rec.name.cls[j] : j \in {x \in DOMAIN rec.name.cls : rec.name.cls[x] # "plain"}}
     \cup {"attrs:" \o f : f \in TreeFeatures(rec.attrs)}
